@@ -303,6 +303,7 @@ func (e *exerciser) walk(node string, t schema.Type, depth int) {
 		}
 	})
 	e.guard("unitValues", node, "-", func() { valids = append(valids, unitValues(t)...) })
+	e.guard("ruleNameValues", node, "-", func() { valids = append(valids, ruleNameValues(t)...) })
 	e.formatUnits(node, t)
 	e.opsOn(node, t, valids)
 	e.guard("ReflectedType", node, "-", func() { _ = t.ReflectedType() })
@@ -359,6 +360,73 @@ func (e *exerciser) walk(node string, t schema.Type, depth int) {
 			e.walk(fmt.Sprintf("%s/types.%d", node, k), m, depth+1)
 		}
 	}
+}
+
+// ruleNameValues: for an object (or whatever denotes one), mappings that contain - as KEYS - the names its
+// presence rules (required_if, required_if_not, conflicts) mention, alone and next to each property.  The
+// names in those lists are free strings: after a mutation they may name no property of the object at all,
+// and Validate / Serialize look at the presence rules before they look at the keys.
+func ruleNameValues(t schema.Type) []namedVal {
+	obj := denotedObject(t)
+	if obj == nil {
+		return nil
+	}
+	names := map[string]bool{}
+	props := make([]string, 0, len(obj.Properties()))
+	for id, p := range obj.Properties() {
+		props = append(props, id)
+		if p == nil {
+			continue
+		}
+		for _, l := range [][]string{p.RequiredIf(), p.RequiredIfNot(), p.Conflicts()} {
+			for _, n := range l {
+				names[n] = true
+			}
+		}
+	}
+	if len(names) == 0 {
+		return nil
+	}
+	sort.Strings(props)
+	if len(props) > 6 {
+		props = props[:6]
+	}
+	good := map[string]any{}
+	for _, id := range props {
+		if p := obj.Properties()[id]; p != nil {
+			if vs := validValues(p.Type(), 2); len(vs) > 0 {
+				good[id] = vs[0]
+			}
+		}
+	}
+	var sorted []string
+	for n := range names {
+		sorted = append(sorted, n)
+	}
+	sort.Strings(sorted)
+	var out []namedVal
+	for i, n := range sorted {
+		out = append(out, namedVal{fmt.Sprintf("rule_name%d_alone", i), map[string]any{n: int64(1)}})
+		for j, id := range props {
+			if id == n {
+				continue
+			}
+			m := map[string]any{n: int64(1)}
+			if v, ok := good[id]; ok {
+				m[id] = v
+			} else {
+				m[id] = int64(1)
+			}
+			out = append(out, namedVal{fmt.Sprintf("rule_name%d_with_prop%d", i, j), m})
+		}
+		// and next to all properties at once
+		all := map[string]any{n: int64(1)}
+		for id, v := range good {
+			all[id] = v
+		}
+		out = append(out, namedVal{fmt.Sprintf("rule_name%d_with_all", i), all})
+	}
+	return out
 }
 
 // formatUnits: the formatting operations of the units a loaded number schema carries (what a user interface
@@ -751,13 +819,7 @@ func (g *genCtx) inputs(t *AST, depth int) []any {
 				}
 			}
 		}
-		if t.Units != nil && t.Units.Some {
-			u := t.Units.V
-			out = append(out, "5"+u.Base.SS, "5 "+u.Base.LP, "1"+u.Base.SP+"x")
-			for _, m := range u.Mults {
-				out = append(out, "2"+m.Unit.SS, "1"+m.Unit.SS+"3"+u.Base.SS, "1 "+m.Unit.LS)
-			}
-		}
+		out = append(out, unitInputs(t.Units)...)
 		return out
 	case "string":
 		return []any{"", "a", "ab", "abc", "abcd", "b", "ba", int64(5), 1.5, nil, true, []any{"a"}}
@@ -769,9 +831,7 @@ func (g *genCtx) inputs(t *AST, depth int) []any {
 		return []any{int64(1), "s", 1.5, true, nil, []any{int64(1), "a"}, map[string]any{"a": int64(1)}, map[any]any{int64(1): "x"}}
 	case "enum_int", "enum_string":
 		out := []any{nil, "a", "b", "c", int64(1), int64(2), int64(-1), int64(3), "1", "2", true, 1.0}
-		if t.Units != nil && t.Units.Some {
-			out = append(out, "1"+t.Units.V.Base.SS)
-		}
+		out = append(out, unitInputs(t.Units)...)
 		return out
 	case "list":
 		items := g.inputs(t.Items, depth+1)
@@ -877,6 +937,41 @@ func (g *genCtx) inputs(t *AST, depth int) []any {
 		return out
 	}
 	return junk
+}
+
+// unitTokens: quantities written as text, by grammar (spec/Meta.tla UnitTokenClass; the vectors carry the
+// set, this copy serves the random driver).
+var unitTokens = []string{"5m30s", "250ms", "10s", "1m", "0s", "1H", "2d", "1d2H3m4s", "90 seconds", "1 minute",
+	"1H 30m", "5", "5ns", "1h", "1h30m", "1.5s", "30s5m", "-5s", "1.5h", "+5s", "1us", "1µs", ".5s", "1m1m",
+	"1h0m0.5s", "1e3s", "5kB", "1MB", "2 GB", "1TB1kB", "5B", "5%", "3 chars", "1 char", "1.5MB", "5x", "h",
+	"1 h 30", "s5", "--5s", "5m 30"}
+
+// unitInputs: text inputs for a number measured in units: the token partition, and spellings derived from
+// the names of the unit set at hand (every name of the base unit and of every multiplier, compounds).
+func unitInputs(o *OptU) []any {
+	if o == nil || !o.Some {
+		return nil
+	}
+	var out []any
+	for _, s := range unitTokens {
+		out = append(out, s)
+	}
+	u := mkUnits(o)
+	names := func(d *schema.UnitDefinition) []string {
+		return []string{d.NameShortSingular(), d.NameShortPlural(), d.NameLongSingular(), d.NameLongPlural()}
+	}
+	base := names(u.BaseUnit())
+	out = append(out, "5"+base[0], "5 "+base[3], "1"+base[1]+"x")
+	keys := make([]int64, 0, len(u.Multipliers()))
+	for k := range u.Multipliers() {
+		keys = append(keys, k)
+	}
+	sort.Slice(keys, func(i, j int) bool { return keys[i] < keys[j] })
+	for _, k := range keys {
+		n := names(u.Multipliers()[k])
+		out = append(out, "2"+n[0], "1"+n[0]+"3"+base[0], "1 "+n[2], "3 "+n[3])
+	}
+	return out
 }
 
 // good returns one input the type accepts (best effort).
